@@ -5,8 +5,8 @@ from vlib.props import c09
 ID = 'C10'
 LEVEL = 'exploration'
 RULE = ('cover problems as in C09 (all predicates over the grids of <= 8 points except 0..7 and -2..1x0..1 in the quick tier, '
-        'a spread sample of 128 of each 16-point grid and EVERY cyclic-core '
-        'instance over four 0..1 variables, a committed corpus of 98 32-point instances covering every observed shape of the exhaustive search with a pruned branch (thorough: also the 396-instance corpus of C09); thorough: all 65535 of each); cover_enum.minimize must '
+        'a spread sample of 128 of each 16-point grid and every other block of 512 (thorough: EVERY) cyclic-core '
+        'instances over four 0..1 variables, a committed corpus of 98 32-point instances covering every observed shape of the exhaustive search with a pruned branch (thorough: also the 396-instance corpus of C09); thorough: all 65535 of each); cover_enum.minimize must '
         'terminate without error and its set of BDDs, read out to a set of '
         'sets of boxes, must EQUAL the set of all minimum-cardinality prime '
         'covers found by exhaustive set-cover search; contains the cover of '
@@ -26,11 +26,24 @@ def shards(tier, seed):
         return c09.shards(tier, seed, large=6000) + _enum_shards()
     out = c09.shards(tier, seed, spread=128, cyclic_grids=['b4'],
                      small=['b1', 'b2', 'b3', 'g4', 's4', 'n4', 'g42', 'n42'],
-                     large=320)
-    # the enumeration takes seconds on the 32-point instances of C09's
-    # branch-and-bound corpus: the quick tier leaves them to the thorough
-    # tier and runs the enumeration's own corpus instead
-    return [sh for sh in out if 'corpus' not in sh] + _enum_shards()
+                     large=0)
+    # the enumeration takes seconds (up to 55 s) on 32-point instances: the
+    # quick tier leaves C09's corpus and the seed-indexed instances to the
+    # thorough tier and runs the enumeration's own corpus (every instance
+    # below 4 s) instead
+    res, k = [], 0
+    for sh in out:
+        if 'corpus' in sh:
+            continue
+        if 'cyclic' in sh:
+            # every cyclic-core instance over four 0..1 variables costs
+            # 0.2 s here: the quick tier takes every other block of 512
+            # (seed decides which half), C09 takes all
+            k += 1
+            if (k + seed) % 2:
+                continue
+        res.append(sh)
+    return res + _enum_shards()
 
 
 def _enum_shards():
